@@ -42,8 +42,9 @@ func TestCheck(t *testing.T) {
 	r.Assume("scheduling points are the lock operations of the runtime state, the queue store and the per-surface servers; code between them is thread-local (side condition: -race pass)")
 	r.Assume("dispatch part: the dispatcher is the value a.VerifDispatcher builds right after boot (the statements of run()); it is started after the reload, the transport, resolver and jitter draw are in-memory stand-ins, time is the bubble's virtual clock; the backlog is put into the store directly")
 	r.Assume("second rewrite after a crash: the directory is copied file by file (names, modes, bytes) before the fresh process starts; open file descriptors, locks and page-cache state of the killed process are not part of the state")
+	r.Assume("file replacement behind a symbolic link: the oracle reads the configured path only (whether the link survives the rewrite and what the link target holds afterwards is not demanded by the statement); the second rewrite after a restart is made for the regular-file kind only")
 	r.Assume("mcp rewrite part: the instance behind the admin endpoint is a stand-in listener whose health answer is the enumerated environment; timeouts only end the tool's polling, an environment that can answer 200 is allowed both consistent outcomes")
 	r.Assume("process part: the real app.Main in a child process (in-memory listeners of the build overlay), one SIGHUP per edit, outcome read from the reload's own log line")
-	r.Set("rule", "(p) the real entry point app.Main(hookaido run) in a child process, every sequence up to depth 2 (thorough 3) over {reloadable edit, restart-requiring edit, invalid file, no edit, valid-again edit} each followed by SIGHUP: log line and probe vector must equal the reference (a refused edit stays refused when signalled again); (a) 29 reload inputs (unreadable file, parse error, compile errors, unset secret env, every restart-requiring difference each with a reloadable change riding along, and 6 reloadable changes) are applied to a running instance; a probe vector of 61 ingress/pull/admin requests must be answered exactly as by a twin that never reloaded (failed reload) or by a fresh instance started on the new file (successful reload); (b) every interleaving of the real reloadConfig (old -> new) with one in-flight request per config pair, on the handlers wired by the real startServers; oracle: the request's observable result equals the result under the old configuration only or under the new configuration only (both obtained by sequential reference runs of the same build); (c) the config file is rewritten through the management API (endpoint upsert / delete) and through MCP config_apply (write_only, and write_and_reload with a reload that cannot succeed) in a child process that is SIGKILLed before every statement of writeFileAtomic / syncDir / rollbackConfigFile (app and mcp, instrumented at build time): the file must hold exactly the old or exactly the new bytes and the new bytes must compile; a failed reload must restore the previous bytes; after EVERY crash point a fresh process starts on the directory as it was left and makes a second, different rewrite (one shorter than what the killed rewrite was writing, one longer): it must start, be answered and leave byte for byte what the same rewrite leaves in a clean directory holding the same file (thorough: the second rewrite is itself killed at every crash point, once per distinct directory state); (d) dispatcher differential: a family of configurations (base + one edit each: deliver route added / removed / turned into pull / renamed / re-ordered, target added / removed / changed, retry, timeout, signing on / off / secret / header names, deliver_concurrency, defaults.deliver, every egress option and rule edit incl. re-spellings, and reloadable edits); for every ordered pair (quick: base <-> every edit; thorough: all pairs) the real app boots on A, the push dispatcher is built as run() builds it at boot, the file is rewritten to B and reloaded through reloadConfig; ingress answers, dispatcher workers per route, every request an in-memory transport sees in virtual time (URL, body, header names, verifying secret), pull answers and the messages left in the store must equal line by line those of a fresh boot of A (reload refused) or of B (reload reported applied); the family includes inbound HMAC through named secrets (secret retired / not yet valid / value changed / reference dropped / inline secret, alone and with a max_body edit riding along) probed by requests signed under every secret of the family; (e) MCP rewrites: config_apply / management_endpoint_upsert / management_endpoint_delete x {preview_only, write_only, write_and_reload} x previous file {compiles, does not parse, absent} x candidate {differs, same, does not compile} x 14 admin environments (listener answering 200 with/without token, 503, 401, 404, never answering, nothing listening, admin token reference unloadable: env unset / env empty / file missing / file empty / second reference unloadable, the last two kinds also with a listener) on a real loopback listener: the file holds the previous state or exactly the candidate; not answered applied => previous state (bytes or absence) is back; answered applied => candidate bytes; no listener can answer 200 or candidate does not compile => not applied and previous state")
+	r.Set("rule", "(p) the real entry point app.Main(hookaido run) in a child process, every sequence up to depth 2 (thorough 3) over {reloadable edit, restart-requiring edit, invalid file, no edit, valid-again edit} each followed by SIGHUP: log line and probe vector must equal the reference (a refused edit stays refused when signalled again); (a) 29 reload inputs (unreadable file, parse error, compile errors, unset secret env, every restart-requiring difference each with a reloadable change riding along, and 6 reloadable changes) are applied to a running instance; a probe vector of 61 ingress/pull/admin requests must be answered exactly as by a twin that never reloaded (failed reload) or by a fresh instance started on the new file (successful reload); (b) every interleaving of the real reloadConfig (old -> new) with one in-flight request per config pair, on the handlers wired by the real startServers; oracle: the request's observable result equals the result under the old configuration only or under the new configuration only (both obtained by sequential reference runs of the same build); (c) the config file is rewritten through the management API (endpoint upsert / delete) and through MCP config_apply (write_only, and write_and_reload with a reload that cannot succeed) in a child process that is SIGKILLed before every statement of writeFileAtomic / syncDir / rollbackConfigFile (app and mcp, instrumented at build time): the file must hold exactly the old or exactly the new bytes and the new bytes must compile; a failed reload must restore the previous bytes; every one of these flows runs with the configured path being a regular file, a relative symbolic link to a file in the same directory, a relative and an absolute link into another directory, and a chain of two links across three directories (the content is what a reader of the configured path gets; file mutations of the rewriting code are crash points and writes are torn); for a regular file, after EVERY crash point a fresh process starts on the directory as it was left and makes a second, different rewrite (one shorter than what the killed rewrite was writing, one longer): it must start, be answered and leave byte for byte what the same rewrite leaves in a clean directory holding the same file (thorough: the second rewrite is itself killed at every crash point, once per distinct directory state); (d) dispatcher differential: a family of configurations (base + one edit each: deliver route added / removed / turned into pull / renamed / re-ordered, target added / removed / changed, retry, timeout, signing on / off / secret / header names, deliver_concurrency, defaults.deliver, every egress option and rule edit incl. re-spellings, and reloadable edits); for every ordered pair (quick: base <-> every edit; thorough: all pairs) the real app boots on A, the push dispatcher is built as run() builds it at boot, the file is rewritten to B and reloaded through reloadConfig; ingress answers, dispatcher workers per route, every request an in-memory transport sees in virtual time (URL, body, header names, verifying secret), pull answers and the messages left in the store must equal line by line those of a fresh boot of A (reload refused) or of B (reload reported applied); the family includes inbound HMAC through named secrets (secret retired / not yet valid / value changed / reference dropped / inline secret, alone and with a max_body edit riding along) probed by requests signed under every secret of the family; (e) MCP rewrites: config_apply / management_endpoint_upsert / management_endpoint_delete x {preview_only, write_only, write_and_reload} x previous file {compiles, does not parse, absent} x candidate {differs, same, does not compile} x 14 admin environments (listener answering 200 with/without token, 503, 401, 404, never answering, nothing listening, admin token reference unloadable: env unset / env empty / file missing / file empty / second reference unloadable, the last two kinds also with a listener) on a real loopback listener: the file holds the previous state or exactly the candidate; not answered applied => previous state (bytes or absence) is back; answered applied => candidate bytes; no listener can answer 200 or candidate does not compile => not applied and previous state")
 	r.Finish()
 }
